@@ -53,6 +53,13 @@ def classify (H : Hash) (cfg : Cfg) (peer : Nat) (d : Bytes) : Fate :=
 
 inductive ServeRes where
   | errShutdown
+  | readError           -- a non-temporary read error before Shutdown was requested
+deriving DecidableEq, Repr
+
+/-- what `conn.ReadFrom` failed with: a `net.Error` whose `Temporary()` is false, or anything else
+    (temporary network errors, plain errors) -/
+inductive ReadErrKind where
+  | nonTemporary | other
 deriving DecidableEq, Repr
 
 inductive ServePc where
@@ -95,7 +102,7 @@ inductive Event where
   | dropped (task : Nat)
   | serveReturned (serve : Nat)
   | downReturned (down : Nat) (r : DownRes)
-  | listenerClosed (serve : Nat)
+  | listenerClosed (conn : Nat)
   | doubleClose
 deriving DecidableEq, Repr
 
@@ -105,20 +112,27 @@ structure St where
   closes : Nat := 0                     -- how often lastActive was closed (2 = panic)
   ctxCancelled : Bool := false
   serves : List ServePc := []
-  listening : List Bool := []           -- per Serve: its conn is registered in s.listeners
-  connClosed : List Nat := []           -- per Serve: Close() calls on its conn
+  connOf : List Nat := []               -- per Serve: the conn it was called with (several calls may share one)
+  listeners : List Nat := []            -- per conn: `s.listeners[conn]` (0 = not in the map)
+  connClosed : List Nat := []           -- per conn: Close() calls
   inflight : List (List Key) := []      -- per Serve: the `requests` table
   tasks : List Task := []
   downs : List Down := []
   log : List Event := []
 deriving Repr
 
-def init (nServes nDowns : Nat) : St :=
-  { serves := List.replicate nServes .notStarted,
-    listening := List.replicate nServes false,
-    connClosed := List.replicate nServes 0,
-    inflight := List.replicate nServes [],
+/-- initial state: Serve call `i` will be made with conn `conns[i]` -/
+def initWith (conns : List Nat) (nDowns : Nat) : St :=
+  let nConn := conns.foldl max 0 + 1
+  { serves := List.replicate conns.length .notStarted,
+    connOf := conns,
+    listeners := List.replicate nConn 0,
+    connClosed := List.replicate nConn 0,
+    inflight := List.replicate conns.length [],
     downs := List.replicate nDowns ⟨.notStarted, false⟩ }
+
+/-- every Serve call on a conn of its own -/
+def init (nServes nDowns : Nat) : St := initWith (List.range nServes) nDowns
 
 /-- `activeDone`: atomic add of -1; closing `lastActive` when the result is -1 -/
 def activeDone (s : St) : St :=
@@ -135,6 +149,7 @@ inductive Label where
   | serveCount (i : Nat)                     -- `.current`: the later `activeAdd`
   | serveRecv (i : Nat) (peer : Nat) (d : Bytes)   -- ReadFrom returned a datagram: count + spawn
   | serveReadErr (i : Nat)                   -- ReadFrom failed because the conn was closed
+  | serveReadFail (i : Nat) (k : ReadErrKind) -- ReadFrom failed for another reason (environment)
   | taskRun (t : Nat)                        -- the goroutine runs its pipeline up to the handler call
   | taskFinish (t : Nat)                     -- the handler returns
   | downEnter (j : Nat)                      -- Shutdown: mutex region
@@ -153,7 +168,8 @@ def step (H : Hash) (cfg : Cfg) (s : St) : Label → Option St
       if s.sd then
         some { s with serves := s.serves.set i (.returned .errShutdown), log := s.log ++ [.serveReturned i] }
       else
-        let s := { s with listening := s.listening.set i true }
+        let c := s.connOf.getD i 0
+        let s := { s with listeners := s.listeners.set c (s.listeners.getD c 0 + 1) }
         match cfg.variant with
         | .fixed => some (activeAdd { s with serves := s.serves.set i .running })
         | .current => some { s with serves := s.serves.set i .registered }
@@ -165,7 +181,7 @@ def step (H : Hash) (cfg : Cfg) (s : St) : Label → Option St
   | .serveRecv i peer d =>
     match s.serves[i]? with
     | some .running =>
-      if s.connClosed.getD i 0 > 0 then none
+      if s.connClosed.getD (s.connOf.getD i 0) 0 > 0 then none
       else some (activeAdd { s with tasks := s.tasks ++ [⟨i, .spawned (classify H cfg peer d)⟩] })
     | _ => none
   | .serveReadErr i =>
@@ -173,11 +189,28 @@ def step (H : Hash) (cfg : Cfg) (s : St) : Label → Option St
     | some .running =>
       -- the read fails only because the conn was closed; with shutdownRequested set Serve returns
       -- ErrServerShutdown after its deferred cleanup (unregister, activeDone)
-      if s.connClosed.getD i 0 > 0 ∧ s.sd then
+      let c := s.connOf.getD i 0
+      if s.connClosed.getD c 0 > 0 ∧ s.sd then
         some (activeDone { s with serves := s.serves.set i (.returned .errShutdown),
-                                   listening := s.listening.set i false,
+                                   listeners := s.listeners.set c (s.listeners.getD c 0 - 1),
                                    log := s.log ++ [.serveReturned i] })
       else none
+    | _ => none
+  | .serveReadFail i k =>
+    match s.serves[i]? with
+    | some .running =>
+      -- `if shutdownRequested { return ErrServerShutdown }; if net.Error && !Temporary() { return err };
+      --  log; continue` — the deferred cleanup runs on both returns
+      let c := s.connOf.getD i 0
+      if s.sd then
+        some (activeDone { s with serves := s.serves.set i (.returned .errShutdown),
+                                   listeners := s.listeners.set c (s.listeners.getD c 0 - 1),
+                                   log := s.log ++ [.serveReturned i] })
+      else if k = .nonTemporary then
+        some (activeDone { s with serves := s.serves.set i (.returned .readError),
+                                   listeners := s.listeners.set c (s.listeners.getD c 0 - 1),
+                                   log := s.log ++ [.serveReturned i] })
+      else some s
     | _ => none
   | .taskRun t =>
     match s.tasks[t]? with
@@ -206,10 +239,11 @@ def step (H : Hash) (cfg : Cfg) (s : St) : Label → Option St
       if s.sd then some s
       else
         -- CompareAndSwap succeeded: close every registered listener, cancel the server context, activeDone
-        let closed := (List.range s.serves.length).filter (fun i => s.listening.getD i false)
+        -- `for listener := range s.listeners { listener.Close() }`: every conn in the map, once
+        let closed := (List.range s.listeners.length).filter (fun c => s.listeners.getD c 0 > 0)
         some (activeDone { s with sd := true, ctxCancelled := true,
                                    connClosed := (List.range s.connClosed.length).map
-                                     (fun i => s.connClosed.getD i 0 + (if s.listening.getD i false then 1 else 0)),
+                                     (fun c => s.connClosed.getD c 0 + (if s.listeners.getD c 0 > 0 then 1 else 0)),
                                    log := s.log ++ closed.map .listenerClosed })
     | _ => none
   | .downReturnNil j =>
